@@ -19,10 +19,7 @@ def _aslr_off():
         return False
 
 
-def main():
-    job_path = sys.argv[1]
-    with open(job_path, encoding='utf-8') as f:
-        job = json.load(f)
+def run_job(job):
     k = int(job.get('addr_seed', 0))
     # address seed: allocate and partly free a tape-chosen amount of garbage
     junk = []
@@ -76,6 +73,56 @@ def main():
                              'stdout': so[-4000:], 'stderr': se[-3000:], 'calls': fs.calls,
                              'faults': fs.fault_counts})
     del keep
+    return out
+
+
+def zygote():
+    """Import everything once, then fork one grandchild per job line read from stdin.
+    A grandchild is a simulated OS process: same hash seed and (ASLR off) same address layout as a
+    fresh interpreter that has imported stone, its own heap perturbation, its own history."""
+    import importlib
+    from simstone import runcli, simfs, backends  # noqa
+    for b in backends.BACKENDS:
+        importlib.import_module('stone.backends.' + b)
+    sys.stdout.write('ZYGOTE-READY\n')
+    sys.stdout.flush()
+    for line in sys.stdin:
+        line = line.strip()
+        if not line:
+            continue
+        with open(line, encoding='utf-8') as f:
+            job = json.load(f)
+        r, w = os.pipe()
+        pid = os.fork()
+        if pid == 0:
+            os.close(r)
+            code = 0
+            try:
+                out = run_job(job)
+                data = json.dumps(out)
+            except BaseException as e:  # noqa
+                import traceback
+                data = json.dumps({'error': 'job failed: %s' % traceback.format_exc()[-1500:]})
+                code = 1
+            with os.fdopen(w, 'w') as f:
+                f.write(data)
+            os._exit(code)
+        os.close(w)
+        with os.fdopen(r) as f:
+            data = f.read()
+        os.waitpid(pid, 0)
+        sys.stdout.write('SIMPROC ' + (data or json.dumps({'error': 'no result from grandchild'})) + '\n')
+        sys.stdout.flush()
+
+
+def main():
+    if sys.argv[1] == '--zygote':
+        zygote()
+        return
+    job_path = sys.argv[1]
+    with open(job_path, encoding='utf-8') as f:
+        job = json.load(f)
+    out = run_job(job)
     sys.stdout.write('SIMPROC ' + json.dumps(out) + '\n')
     sys.stdout.flush()
 
